@@ -423,7 +423,7 @@ fn knobs_functional(tier: Tier) -> Knobs {
 // ================================================================ C01
 
 fn c01_scen(t: Tier) -> Vec<(&'static str, u64)> {
-    vec![("fault-free", t.pick(90_000, 2_500_000)), ("benign-faults", t.pick(45_000, 1_200_000))]
+    vec![("fault-free", t.pick(400_000, 10_000_000)), ("benign-faults", t.pick(200_000, 5_000_000))]
 }
 fn c01_gen(sc: &str, rng: &mut Rng, t: Tier, _i: u64) -> AnyCase {
     let mut k = knobs_functional(t);
@@ -456,7 +456,7 @@ fn c01_eval(_sc: &str, case: &AnyCase, st: &mut RunStats, _t: Tier) -> Vec<Viola
 // ================================================================ C02
 
 fn c02_scen(t: Tier) -> Vec<(&'static str, u64)> {
-    vec![("progressive", t.pick(90_000, 2_000_000)), ("fragmented", t.pick(60_000, 1_500_000))]
+    vec![("progressive", t.pick(400_000, 8_000_000)), ("fragmented", t.pick(300_000, 6_000_000))]
 }
 fn c02_gen(sc: &str, rng: &mut Rng, t: Tier, _i: u64) -> AnyCase {
     if sc == "fragmented" {
@@ -484,7 +484,7 @@ fn c02_eval(sc: &str, case: &AnyCase, st: &mut RunStats, _t: Tier) -> Vec<Violat
 // ================================================================ C03
 
 fn c03_scen(t: Tier) -> Vec<(&'static str, u64)> {
-    vec![("timing", t.pick(120_000, 3_000_000)), ("long-runs", t.pick(300, 2_000))]
+    vec![("timing", t.pick(500_000, 12_000_000)), ("long-runs", t.pick(1_200, 12_000))]
 }
 fn c03_gen(sc: &str, rng: &mut Rng, t: Tier, _i: u64) -> AnyCase {
     let mut k = knobs_functional(t);
@@ -519,7 +519,7 @@ fn c03_eval(_sc: &str, case: &AnyCase, st: &mut RunStats, _t: Tier) -> Vec<Viola
 // ================================================================ C04
 
 fn c04_scen(t: Tier) -> Vec<(&'static str, u64)> {
-    vec![("contract", t.pick(250_000, 6_000_000))]
+    vec![("contract", t.pick(1_000_000, 20_000_000))]
 }
 fn c04_gen(_sc: &str, rng: &mut Rng, _t: Tier, _i: u64) -> AnyCase {
     let mut k = Knobs::contract();
@@ -549,7 +549,7 @@ fn c04_eval(_sc: &str, case: &AnyCase, st: &mut RunStats, _t: Tier) -> Vec<Viola
 // ================================================================ C05
 
 fn c05_scen(t: Tier) -> Vec<(&'static str, u64)> {
-    vec![("progressive", t.pick(100_000, 2_500_000)), ("fragmented", t.pick(50_000, 1_000_000))]
+    vec![("progressive", t.pick(300_000, 6_000_000)), ("fragmented", t.pick(200_000, 4_000_000))]
 }
 fn c05_gen(sc: &str, rng: &mut Rng, _t: Tier, _i: u64) -> AnyCase {
     if sc == "fragmented" {
@@ -657,7 +657,7 @@ fn c05_eval(sc: &str, case: &AnyCase, st: &mut RunStats, _t: Tier) -> Vec<Violat
 // ================================================================ C06
 
 fn c06_scen(t: Tier) -> Vec<(&'static str, u64)> {
-    vec![("finalise", t.pick(100_000, 2_000_000)), ("benign-faults", t.pick(40_000, 1_000_000))]
+    vec![("finalise", t.pick(400_000, 8_000_000)), ("benign-faults", t.pick(200_000, 4_000_000))]
 }
 fn c06_gen(sc: &str, rng: &mut Rng, t: Tier, _i: u64) -> AnyCase {
     let mut k = knobs_functional(t);
@@ -684,7 +684,7 @@ fn c06_eval(_sc: &str, case: &AnyCase, st: &mut RunStats, _t: Tier) -> Vec<Viola
 // ================================================================ C08
 
 fn c08_scen(t: Tier) -> Vec<(&'static str, u64)> {
-    vec![("pairs", t.pick(70_000, 2_000_000))]
+    vec![("pairs", t.pick(250_000, 5_000_000))]
 }
 fn c08_gen(_sc: &str, rng: &mut Rng, t: Tier, _i: u64) -> AnyCase {
     let mut k = knobs_functional(t);
@@ -794,7 +794,7 @@ fn c08_eval(_sc: &str, case: &AnyCase, st: &mut RunStats, _t: Tier) -> Vec<Viola
 // ================================================================ C09
 
 fn c09_scen(t: Tier) -> Vec<(&'static str, u64)> {
-    vec![("av-sync", t.pick(90_000, 2_000_000))]
+    vec![("av-sync", t.pick(400_000, 8_000_000))]
 }
 fn c09_gen(_sc: &str, rng: &mut Rng, t: Tier, _i: u64) -> AnyCase {
     let mut k = knobs_functional(t);
@@ -828,7 +828,7 @@ fn c09_eval(_sc: &str, case: &AnyCase, st: &mut RunStats, _t: Tier) -> Vec<Viola
 // ================================================================ C15
 
 fn c15_scen(t: Tier) -> Vec<(&'static str, u64)> {
-    vec![("interleave", t.pick(90_000, 2_000_000))]
+    vec![("interleave", t.pick(400_000, 8_000_000))]
 }
 fn c15_gen(_sc: &str, rng: &mut Rng, t: Tier, _i: u64) -> AnyCase {
     let mut k = knobs_functional(t);
@@ -860,7 +860,7 @@ fn c15_eval(_sc: &str, case: &AnyCase, st: &mut RunStats, _t: Tier) -> Vec<Viola
 // ================================================================ C10 / C11
 
 fn c10_scen(t: Tier) -> Vec<(&'static str, u64)> {
-    vec![("interleavings", t.pick(200_000, 4_000_000))]
+    vec![("interleavings", t.pick(1_000_000, 20_000_000))]
 }
 fn c10_gen(_sc: &str, rng: &mut Rng, t: Tier, _i: u64) -> AnyCase {
     AnyCase::Frag(gen::gen_frag(rng, &FragKnobs { reject_pct: 12, boundary: false, big: t == Tier::Thorough, long_pct: 3 }))
@@ -869,7 +869,7 @@ fn c10_eval(_sc: &str, case: &AnyCase, st: &mut RunStats, _t: Tier) -> Vec<Viola
     crate::frag::c10_eval(as_frag(case), st)
 }
 fn c11_scen(t: Tier) -> Vec<(&'static str, u64)> {
-    vec![("timeline", t.pick(200_000, 4_000_000))]
+    vec![("timeline", t.pick(1_000_000, 20_000_000))]
 }
 fn c11_gen(_sc: &str, rng: &mut Rng, _t: Tier, _i: u64) -> AnyCase {
     AnyCase::Frag(gen::gen_frag(rng, &FragKnobs { reject_pct: 4, boundary: false, big: false, long_pct: 5 }))
@@ -883,7 +883,7 @@ const STUB_FRAG: &[&str] = &["caller (seeded write/flush/query interleaving)"];
 // ================================================================ C12
 
 fn c12_scen(t: Tier) -> Vec<(&'static str, u64)> {
-    vec![("prog-adversarial", t.pick(200_000, 4_000_000)), ("frag-adversarial", t.pick(120_000, 2_500_000)), ("stateless", t.pick(80_000, 1_500_000))]
+    vec![("prog-adversarial", t.pick(600_000, 12_000_000)), ("frag-adversarial", t.pick(400_000, 8_000_000)), ("stateless", t.pick(200_000, 4_000_000))]
 }
 fn c12_knobs() -> Knobs {
     let mut k = Knobs::contract();
@@ -985,7 +985,7 @@ const FK_ALL: &[&str] = &["short_write", "interrupted", "err_once", "die", "ok_z
 // ================================================================ C13
 
 fn c13_scen(t: Tier) -> Vec<(&'static str, u64)> {
-    vec![("enumerate", t.pick(132, 3000))]
+    vec![("enumerate", t.pick(480, 12_000))]
 }
 fn c13_gen(_sc: &str, rng: &mut Rng, _t: Tier, i: u64) -> AnyCase {
     AnyCase::Prog(crate::fault::gen_history(rng, i))
@@ -1003,7 +1003,7 @@ const STUB_FAULT: &[&str] = &["sink (SimSink: one enumerated fault point per exe
 // ================================================================ C16
 
 fn c16_scen(t: Tier) -> Vec<(&'static str, u64)> {
-    vec![("boundary-progressive", t.pick(40_000, 700_000)), ("boundary-fragmented", t.pick(30_000, 500_000))]
+    vec![("boundary-progressive", t.pick(200_000, 4_000_000)), ("boundary-fragmented", t.pick(200_000, 4_000_000))]
 }
 fn c16_gen(sc: &str, rng: &mut Rng, _t: Tier, _i: u64) -> AnyCase {
     if sc == "boundary-fragmented" {
@@ -1040,7 +1040,7 @@ fn c16_eval(sc: &str, case: &AnyCase, st: &mut RunStats, _t: Tier) -> Vec<Violat
 // ================================================================ C17
 
 fn c17_scen(t: Tier) -> Vec<(&'static str, u64)> {
-    vec![("schedules", t.pick(12_000, 600_000)), ("equivalent-paths", t.pick(60_000, 1_500_000))]
+    vec![("schedules", t.pick(16_000, 500_000)), ("equivalent-paths", t.pick(200_000, 4_000_000))]
 }
 fn c17_gen(sc: &str, rng: &mut Rng, t: Tier, _i: u64) -> AnyCase {
     if sc == "equivalent-paths" {
@@ -1079,7 +1079,7 @@ const FK_CONC: &[&str] = &["clock_jump", "resume_inside_sink_write", "thread_mig
 // ================================================================ C20
 
 fn c20_scen(t: Tier) -> Vec<(&'static str, u64)> {
-    vec![("mux-valid", t.pick(3_000, 60_000)), ("mux-invalid", t.pick(4_000, 80_000)), ("validate", t.pick(2_000, 30_000)), ("info", t.pick(2_000, 30_000))]
+    vec![("mux-valid", t.pick(5_000, 80_000)), ("mux-invalid", t.pick(7_000, 120_000)), ("validate", t.pick(3_000, 40_000)), ("info", t.pick(3_000, 40_000))]
 }
 fn c20_gen(sc: &str, rng: &mut Rng, _t: Tier, _i: u64) -> AnyCase {
     AnyCase::Cli(crate::cli::gen(rng, sc))
